@@ -28,6 +28,26 @@ META["C15"] = {
   "design_ref": "DESIGN.md §3 C15",
   "note": "Trusted: as C01. Bounded only: equality with supervised training for an empty unlabeled set.",
   "technique": TECH}
+META["C13"] = {
+  "text": "Both density-clustering routines (UnsupervisedOPF._clustering, KNNSupervisedOPF._clustering) and propagate_labels are under contract; the competition-loop invariants K0-K8 (removed nodes final, predecessor removed earlier and adjacent, cost = min(cost(pred), density) > density - 1, root pointer = root of predecessor and points at a node without predecessor, cost <= cost(root), cluster identifiers in bijection with the removed roots via a ghost map, conquest order = inverse of a ghost rank) are inductive; all obligations generated from the real source (including the symmetrisation loops that edit the adjacency lists, index safety and every property setter) are discharged for all sample sets, k and tie patterns. The postcondition is the property statement; KNN clustering with force_prototype additionally yields every sample its own label (used by C04).",
+  "design_ref": "DESIGN.md §3 C13",
+  "note": "Trusted: VC generator, z3, heap contracts (C05), float order over the reals, cardinality lemmas; the precondition (what create_arcs/calculate_pdf establish) is C12's business.",
+  "technique": TECH}
+META["C06"] = {
+  "text": "For each of the 47 identifiers the body of the registry entry is symbolically evaluated from the real AST into an outer scalar expression over reductions of pointwise expressions; the closed form of the sidecar table has the same shape. Obligations: pointwise equality of matched summands over the metric's domain, equality of the outer expressions with the reductions as free reals, definedness of every division / log / root, and - as finite obligations discharged by evaluating the literals - registry keys = accepted identifiers = specified identifiers, every key bound to its own function, OPF.__init__ binding distance_fn to the registry entry, the four model constructors passing `distance` through, the wrapper shifting by EPSILON. All discharged (z3 nlsat / static), for every vector length.",
+  "design_ref": "DESIGN.md §3 C06",
+  "note": "Over the reals (rounding is outside the statement); reductions by their external contract (congruence, homogeneity, additivity); numba trusted to preserve the source semantics.",
+  "technique": "contract-based deductive verification: symbolic evaluation of the real numpy bodies (pyvc.vecexpr) against sidecar closed forms, obligations discharged by z3; run-time contract (float interpreter of the same closed forms) on the real jitted functions for replay"}
+META["C07"] = {
+  "text": "Frame conditions: for the 47 metrics, the decorator wrapper, fit / predict and their helpers in all four models, Subgraph/Node construction, get_distances and pre_compute_distance, no parameter other than `self` (and no attribute-held alias of caller data: features, pre_distances) may be mutated - decided for all inputs and call histories by a conservative may-mutate inference over the real source with a fix-point over the call graph (209 obligations). `reads` obligations: no global state or RNG in those functions. The run-time channel compares caller arrays byte for byte and repeats evaluations / fits.",
+  "design_ref": "DESIGN.md §3 C07",
+  "note": "Static back end (no solver); external libraries assumed not to mutate their arguments; dtype-level effects (integer arrays) outside the model.",
+  "technique": "contract-based verification of frame conditions: syntactic effect inference over the real AST (modifies-clauses checked by fix-point), run-time byte comparison as bounded twin"}
+META["C08"] = {
+  "text": "Definedness on the domain and agreement with the closed form are proved (C06 obligations). The metric axioms of the fixed table (finite, symmetric, non-negative, zero self-distance, triangle inequality for the 13 true metrics) are currently decided by the bounded run-time contract on the real functions; Soergel's triangle inequality is cited.",
+  "design_ref": "DESIGN.md §3 C08",
+  "note": "Level `other`: proved and bounded clauses itemised in the evidence.",
+  "technique": "deductive for definedness/closed form (pyvc.vecexpr + z3); bounded run-time contracts for the axiom table"}
 ALL = ["C%02d" % i for i in range(1, 21)]
 NOT_APPLICABLE = []
 def _na():
